@@ -172,6 +172,44 @@ def laws():
         from ..sym2smt import nf_is_zero
         return Case(alt2 if all(nf_is_zero(r) is True for r in alt2) else alt1)
 
+    # coefficients that are NOT generic symbols: unit-modulus complex numbers as the coefficient of the unknown (a shortcut that
+    # treats |kappa| == 1 as kappa == +-1 inverts them wrongly), and radicals / logarithms of a PRODUCT of real symbols of unknown
+    # sign as other coefficients (splitting them, sqrt(x*y) -> sqrt(x)*sqrt(y), changes the value for negative x, y)
+    KAPPA = {"I": lambda x, y: sp.I, "-I": lambda x, y: -sp.I, "exp(I*x)": lambda x, y: sp.exp(sp.I * x),
+             "-1": lambda x, y: sp.Integer(-1), "x": lambda x, y: x}  # (not (1+I)/sqrt(2): SymPy keeps it as TWO terms in the unknown)
+    COEF = {"x": lambda x, y: x, "sqrt(x*y)": lambda x, y: sp.sqrt(x * y), "cbrt(x*y)": lambda x, y: (x * y) ** sp.Rational(1, 3),
+            "log(x*y)": lambda x, y: sp.log(x * y), "(x*y)**x": lambda x, y: (x * y) ** x}
+
+    @law("solve_for_vector/unit-modulus-and-non-polynomial-coefficients",
+         [(kn, cn, form, red) for kn in KAPPA for cn in COEF for form in ("expr", "eq") for red in (True, False)
+          if kn == "x" or cn == "x" or (kn, cn) in (("I", "sqrt(x*y)"), ("-1", "log(x*y)"))],
+         ["solvers.solve_for_vector", "vectors.into_terms", "vectors.split_factor"])
+    def _(s, g):
+        kn, cn, form, red = s
+        sy, env, k = setup(g)
+        u, b, c = sy[0], sy[1], sy[2]
+        x, y = g.var("x"), g.var("y")
+        kappa, coef = KAPPA[kn](x, y), COEF[cn](x, y)
+        expr = kappa * u + coef * b + 2 * c
+        arg = sp.Eq(kappa * u, -(coef * b + 2 * c), evaluate=False) if form == "eq" else expr
+        res = S.solve_for_vector(arg, u, reduce_factor=red)
+        if not isinstance(res, sp.Eq):
+            raise AssertionError(f"result is not an equation: {res}")
+        diff = _asvec(*sem(res.lhs - res.rhs, env))
+        e = _asvec(*sem(expr, env))
+        assume = [sp.Ne(x, 0), sp.Ne(y, 0)]
+        # the imaginary unit is outside the SMT translation: complex residuals are expanded here (exp(I*x)*exp(-I*x) and I*I
+        # combine on construction); what is left over is decided by normal form / a numeric witness
+        tidy = (lambda r: sp.expand(r)) if kappa.has(sp.I) else (lambda r: r)
+        if red:
+            out_ = [tidy(kappa * d - t) for d, t in zip(diff, e)]
+            out_.append(sp.Integer(1 if sp.sympify(res.rhs).has(u) else 0))
+            return Case(out_, assume=assume)
+        alt1 = [tidy(d - t) for d, t in zip(diff, e)]
+        alt2 = [tidy(d + t) for d, t in zip(diff, e)]
+        from ..sym2smt import nf_is_zero
+        return Case(alt2 if all(nf_is_zero(r) is True for r in alt2) else alt1, assume=assume)
+
     @law("solve_for_vector/unknown-is-not-a-term(eq-with-cancelling-unknown);non-atomic-unknown-is-refused",
          [("eq-cancels",), ("2*u",), ("-u",), ("u/k",), ("3*cross(b,c)",), ("u+b",)], ["solvers.solve_for_vector"])
     def _(s, g):
